@@ -56,12 +56,24 @@ theorem C10_lib1_reload_at_every_prefix (o : FOps) (s : VSchema) (um up dir : By
       exact ih _ h'
   exact key _ _ (libInv_empty s um up dir)
 
-/-- The invariant is needed: a library whose p.db holds a PerformanceData row for an id without a Track row (what
-`remove_track` left before fix b5e9c9c) does not survive the round trip through the two files as a function of its
-tracks — the stored file has a row no track shows; and a stamp of another version reloads as that other version. -/
+/-- The version-stamp clause of the invariant is needed: a library whose m.db carries the stamp of another version reloads
+as that other version, and one with an unknown stamp does not load at all (`unsupported_database`). -/
 theorem C10_lib1_reload_needs_invariant :
     (reload .s1_6_0 { Lib1.empty .s1_6_0 [77] [80] [] with infoM := ⟨[77], (1, 7, 1)⟩ }).map (·.1) = some .s1_7_1 ∧
     (reload .s1_6_0 { Lib1.empty .s1_6_0 [77] [80] [] with infoM := ⟨[77], (9, 9, 9)⟩ }).map (·.1) = none := by
+  decide +kernel
+
+/-- non-vacuity of `C10_lib1_reload`: the empty library of every version satisfies the invariant, and so does (by
+`C11_lib1_invariant_after_every_history`) every state reached from it; a concrete reload of a populated 1.17.0 library: -/
+example : ∀ s, LibInv s (Lib1.empty s [77] [80] []) := fun s => libInv_empty s _ _ _
+
+example :
+    let o : FOps := ⟨fun _ => 0, fun n => if n = 0 then 0 else F64.one, fun _ _ => 0, fun b => b⟩
+    let L := run o .s1_17_0 (Lib1.empty .s1_17_0 [77] [80] [])
+      [.createRootCrate [97], .createTrack { Snap.empty with relativePath := some [98] }, .addTrack 1 1,
+       .createTrack { Snap.empty with relativePath := some [99] }, .removeTrack 2]
+    ((reload .s1_17_0 L).map fun p => (p.1, (raw p.2) == raw L)) = some (.s1_17_0, true) ∧ (raw L).perf = [1] ∧
+      (raw L).cr.track = [⟨1, true⟩, ⟨3, false⟩] := by
   decide +kernel
 
 end EngineModel.Properties.C10Lib1
